@@ -234,16 +234,23 @@ Clauses(rec, S) ==
      \cup (IF ~rec.fchk \/ filesOK THEN {} ELSE {"files"})
 
 (* Allowed outcomes: the operators' own meaning; under a lowered limit     *)
-(* also a failure of descriptor allocation in any redirection.             *)
-Verdict(rec) ==
-  LET sem == Clauses(rec, AbsList(rec, 0, FALSE))
-  IN IF sem = {} THEN {}
-     ELSE IF rec.lim # AbsNoLimit
-             /\ \E s \in 1 .. Len(rec.list) : \E e \in BOOLEAN :
-                   Clauses(rec, AbsList(rec, s, e)) = {}
-          THEN {}
-          ELSE sem
+(* also a failure of descriptor allocation in any redirection.  The        *)
+(* verdict is that of the outcome the observation is closest to (fewest    *)
+(* violated clauses), with the index of the redirection failing in it.     *)
+Outcomes(rec) ==
+  {<<0, FALSE>>} \cup
+  (IF rec.lim # AbsNoLimit THEN (1 .. Len(rec.list)) \X BOOLEAN ELSE {})
 
-\* index and operator of the redirection the oracle says fails (0, "" if none)
+VerdictFull(rec) ==
+  LET sem == AbsList(rec, 0, FALSE)
+      cs  == Clauses(rec, sem)
+  IN IF cs = {} \/ rec.lim = AbsNoLimit THEN [clauses |-> cs, fail |-> sem.fail]
+     ELSE LET cand == {[clauses |-> Clauses(rec, AbsList(rec, o[1], o[2])),
+                        fail |-> AbsList(rec, o[1], o[2]).fail] : o \in Outcomes(rec)}
+          IN CHOOSE c \in cand : \A d \in cand : Cardinality(c.clauses) <= Cardinality(d.clauses)
+
+Verdict(rec) == VerdictFull(rec).clauses
+
+\* index of the redirection the oracle says fails by its own meaning (0 if none)
 SemFail(rec) == AbsList(rec, 0, FALSE).fail
 =============================================================================
